@@ -7,11 +7,12 @@ import FhVerif.Base.Bytes
 import Driver.OpsByteClass
 import Driver.OpsIntCodec
 import Driver.OpsPath
+import Driver.OpsFs
 
 open Fh Fh.Driver
 
 def handlers : List (String → List Bytes → Option String) :=
-  [opsByteClass, opsIntCodec, opsPath]
+  [opsByteClass, opsIntCodec, opsPath, opsFs]
 
 def dispatch (line : String) : String :=
   match (line.splitOn " ").filter (· ≠ "") with
